@@ -5,6 +5,7 @@
 package meta
 
 import (
+	"bytes"
 	"errors"
 	"regexp/syntax"
 
@@ -585,7 +586,7 @@ func CompileRegexp(re *syntax.Regexp, config Config) (*Engine, error) {
 	// for small haystacks (< 64 bytes). This matches Rust regex's minimum_len() approach.
 	var fatTeddyFallback *ahocorasick.Automaton
 	if strategy == UseTeddy {
-		if fatTeddy, ok := pf.(*prefilter.FatTeddy); ok {
+		if fatTeddy, ok := pf.(*prefilter.FatTeddy); ok && substringFree(fatTeddy.Patterns()) {
 			builder := ahocorasick.NewBuilder()
 			for _, pattern := range fatTeddy.Patterns() {
 				builder.AddPattern(pattern)
@@ -834,4 +835,19 @@ func (e *CompileError) Error() string {
 // Unwrap returns the underlying error.
 func (e *CompileError) Unwrap() error {
 	return e.Err
+}
+
+// substringFree reports whether no pattern occurs inside another one. The
+// Aho-Corasick automaton reports the match that completes first; that is the
+// leftmost-first match only when matches cannot nest ("abcd|bc" on "abcd", or
+// "qaaa|qaa" on "qaaa", complete the lower-priority or later-starting literal first).
+func substringFree(patterns [][]byte) bool {
+	for i, p := range patterns {
+		for j, q := range patterns {
+			if i != j && len(p) <= len(q) && bytes.Contains(q, p) {
+				return false
+			}
+		}
+	}
+	return true
 }
